@@ -28,6 +28,7 @@ type c16Case struct {
 	Ops     []string `json:"ops"`
 	Listen  bool     `json:"listen"`
 	Offsets []int    `json:"offsets_us"`
+	Timeout bool     `json:"timeout"` // serve with an (hour long) idle timeout: the accept loop then also re-arms the listener deadline
 }
 
 func c16Tuple(r *fw.Run, c *c16Case, idx int) {
@@ -42,14 +43,18 @@ func c16Tuple(r *fw.Run, c *c16Case, idx int) {
 	ctx, cancel := context.WithCancel(context.Background())
 	defer cancel()
 	done := make(chan error, 1)
+	to := time.Duration(0)
+	if c.Timeout {
+		to = time.Hour
+	}
 	if c.Listen {
-		go func() { done <- svc.Listen(ctx, addr, 0) }()
+		go func() { done <- svc.Listen(ctx, addr, to) }()
 	} else {
 		if err := svc.Bind(ctx, addr); err != nil {
 			r.Inconclusive("bind: %v", err)
 			return
 		}
-		go func() { done <- svc.DoListen(ctx, 0) }()
+		go func() { done <- svc.DoListen(ctx, to) }()
 	}
 	// known to be serving: a completed round trip
 	ok := false
@@ -205,6 +210,98 @@ func c16Client(r *fw.Run, transport string, reps int, rng *rand.Rand) {
 	}
 }
 
+// duplexDisp: after an upgrade call the handler reads Call.Conn in one goroutine and writes it in another
+// (which the connection type allows) until the peer closes.
+type duplexDisp struct{}
+
+func (d *duplexDisp) VarlinkGetName() string        { return "org.example.duplex" }
+func (d *duplexDisp) VarlinkGetDescription() string { return "interface org.example.duplex\nmethod Up() -> ()\n" }
+func (d *duplexDisp) VarlinkDispatch(ctx context.Context, c varlink.Call, m string) error {
+	if err := c.Reply(ctx, nil); err != nil {
+		return err
+	}
+	var wg sync.WaitGroup
+	wg.Add(1)
+	stop := make(chan struct{})
+	go func() {
+		defer wg.Done()
+		buf := bigPattern(2048)
+		for {
+			select {
+			case <-stop:
+				return
+			default:
+			}
+			if _, err := c.Conn.Write(ctx, buf); err != nil {
+				return
+			}
+		}
+	}()
+	rb := make([]byte, 512)
+	for {
+		if _, err := c.Conn.Read(ctx, rb); err != nil {
+			break
+		}
+	}
+	close(stop)
+	wg.Wait()
+	return fmt.Errorf("duplex done")
+}
+
+func c16Duplex(r *fw.Run, reps int) {
+	svc, err := varlink.NewService("Verif", "Duplex", "1", "u")
+	if err != nil {
+		return
+	}
+	svc.RegisterInterface(&duplexDisp{})
+	p := filepath.Join(r.WorkDir, fmt.Sprintf("dx%d", r.Seq()))
+	ctx, cancel := context.WithCancel(context.Background())
+	defer cancel()
+	if err := svc.Bind(ctx, "unix:"+p); err != nil {
+		return
+	}
+	done := make(chan error, 1)
+	go func() { done <- svc.DoListen(ctx, 0) }()
+	for k := 0; k < reps; k++ {
+		c, err := net.DialTimeout("unix", p, 2*time.Second)
+		if err != nil {
+			time.Sleep(time.Millisecond)
+			continue
+		}
+		c.SetDeadline(time.Now().Add(10 * time.Second))
+		c.Write([]byte("{\"method\":\"org.example.duplex.Up\",\"upgrade\":true}\x00"))
+		buf := make([]byte, 4096)
+		total := 0
+		for total < 20000+k*100 {
+			n, err := c.Read(buf)
+			total += n
+			if err != nil {
+				break
+			}
+			if total%3 == 0 {
+				c.Write([]byte("ping"))
+			}
+		}
+		// the peer ends its sending side (the handler's reader sees end of stream) while it keeps reading what the
+		// handler's writer is still writing; then it goes away
+		closeWrite(c)
+		for extra := 0; extra < 60000; {
+			n, err := c.Read(buf)
+			extra += n
+			if err != nil {
+				break
+			}
+		}
+		c.Close()
+		r.Count("duplex_handler_runs", 1)
+	}
+	svc.Shutdown()
+	select {
+	case <-done:
+	case <-time.After(20 * time.Second):
+	}
+}
+
 func runC16(r *fw.Run) {
 	rng := rand.New(rand.NewSource(r.Seed*59 + 16))
 	var tuples [][]string
@@ -233,7 +330,7 @@ func runC16(r *fw.Run) {
 	var cases []*c16Case
 	for _, t := range tuples {
 		for rep := 0; rep < reps; rep++ {
-			c := &c16Case{Ops: t, Listen: rep%2 == 0}
+			c := &c16Case{Ops: t, Listen: rep%2 == 0, Timeout: rep%3 == 1}
 			for range t {
 				c.Offsets = append(c.Offsets, []int{0, 0, 50, 200, 800, 2000}[rng.Intn(6)])
 			}
@@ -256,6 +353,7 @@ func runC16(r *fw.Run) {
 	for _, tr := range []string{"pipe", "unix", "tcp", "client-unix", "bridge"} {
 		c16Client(r, tr, r.Pick(8, 60), rng)
 	}
+	c16Duplex(r, r.Pick(30, 300))
 	// handler I/O under cancellation, per-connection reads under a cancelled serving context
 	scratch := fw.NewRun(r.Tier, r.Seed, r.WorkDir, r.Repo)
 	for k := 0; k < r.Pick(2, 8); k++ {
